@@ -395,6 +395,38 @@ fn no_insurance_fund(transferred: bool) -> impl Fn() {
     }
 }
 
+/// the engine's owner and pauser are one account (the deployment default) when ownership is
+/// transferred: the pauser role stays where it was (it only moves through UpdatePauser, sent by
+/// the pauser), before and after a later UpdatePauser
+fn owner_transfer_keeps_pauser() {
+    symrt::set_full(true);
+    let mut w = deploy_or_drop(Cfg::base(false, 9));
+    let e = w.engine.clone();
+    let xfer = |to: &str| EngineExec::UpdateConfig { owner: Some(to.into()), insurance_fund: None, fee_pool: None, initial_margin_ratio: None, maintenance_margin_ratio: None, partial_liquidation_ratio: None, liquidation_fee: None };
+    assert!(w.exec(OWNER, &e, &xfer("owner2"), &[]).ok);
+    let check = |w: &mut World, pauser: &str, others: &[&str], what: &str| {
+        for o in others {
+            let dump0 = w.dump();
+            let t = w.exec(o, &e, &EngineExec::SetPause { pause: true }, &[]);
+            prove_d("C09/non-role-sender-rejected", Cond::from_bool(!t.ok), format!("engine:set_pause sender={} {}", o, what));
+            prove_d("C09/rejected-call-leaves-storage-unchanged", Cond::from_bool(dump0 == w.dump()), format!("engine:set_pause sender={} {}", o, what));
+            let t = w.exec(o, &e, &EngineExec::UpdatePauser { pauser: "stranger".into() }, &[]);
+            prove_d("C09/non-role-sender-rejected", Cond::from_bool(!t.ok), format!("engine:update_pauser sender={} {}", o, what));
+            let t = w.exec(o, &e, &EngineExec::AddWhitelist { address: "stranger".into() }, &[]);
+            prove_d("C09/non-role-sender-rejected", Cond::from_bool(!t.ok), format!("engine:add_whitelist sender={} {}", o, what));
+        }
+        let t = w.exec(pauser, &e, &EngineExec::SetPause { pause: true }, &[]);
+        prove_d("C09/role-holder-not-rejected-for-authorisation", Cond::from_bool(t.ok || !is_auth_error(&t.err)), format!("engine:set_pause sender={} {} err={}", pauser, what, crate::sx::norm(&t.err)));
+        let t = w.exec(pauser, &e, &EngineExec::SetPause { pause: false }, &[]);
+        prove_d("C09/role-holder-not-rejected-for-authorisation", Cond::from_bool(t.ok || !is_auth_error(&t.err)), format!("engine:set_pause(false) sender={} {} err={}", pauser, what, crate::sx::norm(&t.err)));
+    };
+    check(&mut w, OWNER, &["owner2", ALICE, EVE], "after owner -> owner2 (pauser was the old owner)");
+    // the pauser (still the old owner) hands the role to owner2; owner2 then transfers ownership on
+    assert!(w.exec(OWNER, &e, &EngineExec::UpdatePauser { pauser: "owner2".into() }, &[]).ok);
+    assert!(w.exec("owner2", &e, &xfer("owner3"), &[]).ok);
+    check(&mut w, "owner2", &[OWNER, "owner3", ALICE], "after owner2 -> owner3 (pauser is owner2)");
+}
+
 pub fn scenarios(_seed: u64) -> Vec<Scenario> {
     let mut v = vec![];
     let d = "one privileged entry point x all sender kinds {owner, pauser, engine, insurance fund, vAMM, trader, stranger (+ new owner / new pauser after a role transfer)} on fresh deployments with the repository's own price feed; payload amounts/ratios symbolic over the full range";
@@ -410,6 +442,7 @@ pub fn scenarios(_seed: u64) -> Vec<Scenario> {
     }
     v.push(sc("C09", Tier::Quick, "c09.vamm.set_open.no-insurance-fund", "a vAMM instantiated without an insurance fund: SetOpen (both values, both states) by every sender kind", 200, 60, no_insurance_fund(false)));
     v.push(sc("C09", Tier::Quick, "c09.vamm.set_open.no-insurance-fund.transferred", "the same after the vAMM's ownership was transferred: the deployer keeps no right", 200, 60, no_insurance_fund(true)));
+    v.push(sc("C09", Tier::Quick, "c09.engine.owner-transfer-keeps-pauser", "engine ownership transferred while owner and pauser are one account, twice: the pauser role only moves through UpdatePauser", 50, 60, owner_transfer_keeps_pauser));
     let _ = Addr::unchecked("");
     v
 }
